@@ -644,3 +644,72 @@ class ReleaseModel:
             return True
         seen = self.explore(starts)
         return not any((n is self.g.exit or n is self.g.rexit) and h for n, h, _ in seen)
+
+
+def surely_evaluated(e, outcome=None):
+    """Sub-expressions of `e` that are evaluated whenever `e` is evaluated (outcome None) or whenever it is evaluated and comes
+    out truthy / falsy (outcome True / False): the operands a short-circuit can skip are left out.  Yields AST nodes."""
+    if isinstance(e, ast.BoolOp):
+        yield e
+        all_when = isinstance(e.op, ast.And)  # an `and` that is true / an `or` that is false evaluated every operand
+        if outcome is not None and outcome == all_when:
+            for v in e.values:
+                yield from surely_evaluated(v, outcome)
+        else:
+            yield from surely_evaluated(e.values[0], None)
+        return
+    if isinstance(e, ast.UnaryOp) and isinstance(e.op, ast.Not):
+        yield e
+        yield from surely_evaluated(e.operand, None if outcome is None else (not outcome))
+        return
+    if isinstance(e, ast.IfExp):
+        yield e
+        yield from surely_evaluated(e.test, None)
+        return
+    if isinstance(e, (ast.Lambda, ast.ListComp, ast.SetComp, ast.DictComp, ast.GeneratorExp)):
+        yield e
+        if not isinstance(e, ast.Lambda):
+            yield from surely_evaluated(e.generators[0].iter, None)
+        return
+    if isinstance(e, ast.Compare) and len(e.ops) > 1:
+        yield e
+        yield from surely_evaluated(e.left, None)
+        yield from surely_evaluated(e.comparators[0], None)
+        return
+    yield e
+    for c in ast.iter_child_nodes(e):
+        if isinstance(c, ast.expr):
+            yield from surely_evaluated(c, None)
+        elif isinstance(c, ast.keyword):
+            yield from surely_evaluated(c.value, None)
+
+
+def must_pass(g, facts, event, normal_only=True):
+    """Nodes that can be ENTERED on a path from the entry on which `event` has not happened yet.  `event(node, outcome)` says
+    whether executing the node (for a test: with that outcome, else outcome None) makes it happen.  Test edges decided by
+    `facts` are pruned; exceptional edges are not followed."""
+    seen = set()
+    dq = deque([g.entry])
+    while dq:
+        n = dq.popleft()
+        if n in seen:
+            continue
+        seen.add(n)
+        succ = n.succ
+        v = None
+        if n.kind == "test" and n.ast is not None:
+            v = facts.ev(n.ast) if facts is not None else None
+        for m, lab in succ:
+            if normal_only and lab in ("exc", "raise"):
+                continue
+            if n.kind == "test" and lab in ("true", "false"):
+                out = lab == "true"
+                if v is not None and v != out:
+                    continue
+                if event(n, out):
+                    continue
+            elif event(n, None):
+                continue
+            if m not in seen:
+                dq.append(m)
+    return seen
